@@ -248,7 +248,21 @@ def _cmd_tuple(c):
     return (getattr(c, "level", None), c.cmd, c.timeout, qs)
 
 
-def check_tree(model, nested, deploy_text, flags, whole_list_no_commit=False):
+def pt_build_ctx(nested, tagged, inherited=None):
+    """PatchTree whose top-level rows listed in `tagged` (and everything under them) carry the block context `ap-env`: commands
+    of such rows are sent through another session wrapper (the deploy rule `~ %ifcontext=block:ap-env %apply_logic=...`)"""
+    from annet.annlib.patching import PatchTree
+    t = PatchTree()
+    for i, (row, ch) in enumerate(nested):
+        ctx = inherited if inherited is not None else ({"block": "ap-env"} if i in tagged else {})
+        if ch is None:
+            t.add(row, dict(ctx))
+        else:
+            t.add_block(row, pt_build_ctx(ch, (), ctx), dict(ctx))
+    return t
+
+
+def check_tree(model, nested, deploy_text, flags, whole_list_no_commit=False, tagged=None):
     """all C09 checks for one patch tree on one hardware and one (do_commit, do_finalize) -> list of failures"""
     from annet import deploy
     from annet.rulebook.deploying import compile_deploying_text
@@ -257,7 +271,7 @@ def check_tree(model, nested, deploy_text, flags, whole_list_no_commit=False):
     fam = g.VENDORS[vendor]["fam"]
     hw = g.hw_of(model)
     shown_fmt, cmd_fmt = _formatters(hw)
-    pt = g.pt_build(nested)
+    pt = g.pt_build(nested) if tagged is None else pt_build_ctx(nested, set(tagged))
     ref = ref_stream(nested, fam)
     ref_lines = [(len(p) - 1, p[-1]) for p in ref]
 
@@ -464,6 +478,20 @@ def cases(tier, seed):
         for _ in range(n_dep):
             old, new = g.rand_pair_x(rnd)
             yield dict(kind="patch", model=model, old=old, new=new, deploy=rand_deploy_text(rnd))
+    # rows of two session wrappers interleaved in one patch (Aruba: the `ap-env` block context has its own apply logic): the
+    # commands must stay in patch order, each maximal run inside its own wrapper
+    rnd = g.rng(seed, "c09ctx", "Aruba")
+    for _ in range(n_tree):
+        tree = rand_tree(rnd, "exit", max_depth=3)
+        k = len(tree)
+        # only leaf rows are tagged: the shipped rule `~ %ifcontext=block:ap-env` has no children rules, so commands nested under
+        # such a row fall back to the default rule (the per-AP environment of the shipped aruba rulebook is flat)
+        tagged = sorted(i for i in range(k) if tree[i][1] is None and rnd.random() < 0.6)
+        yield dict(kind="ctx", model="Aruba", tree=tree, tagged=tagged)
+    for k in (2, 3, 4):      # every tagging of k leaf rows
+        for mask in range(1, 2 ** k - 1):
+            yield dict(kind="ctx", model="Aruba", tree=[["row%d x" % i, None] for i in range(k)],
+                       tagged=[i for i in range(k) if mask >> i & 1])
     # shipped corpus through the shipped rulebooks
     for s in g.corpus():
         if s["model"] in SESSION:
@@ -491,6 +519,11 @@ def run_case(case):
         for fl in FLAGS:
             ev += 1
             fails += check_tree(case["model"], case["tree"], case["deploy"], fl)
+    elif case["kind"] == "ctx":
+        nontrivial = 0 < len(case["tagged"]) < len(case["tree"])
+        for fl in FLAGS:
+            ev += 1
+            fails += check_tree(case["model"], case["tree"], None, fl, tagged=case["tagged"])
     elif case["kind"] == "patch":
         vendor = MODEL_VENDOR[case["model"]]
         hw = g.hw_of(case["model"])
